@@ -99,6 +99,10 @@ def run_once(program, policy_desc, line_level, opcode_level=False):
             for c in program["prog"][th]:
                 if not applicable(kind, c):
                     continue
+                if c["op"] == "tick":  # one atomic event: no yield point between the two statements
+                    clock.now += c["d"]
+                    ev.append({"op": "tick", "d": c["d"]})
+                    continue
                 s.emit("call", th=th, call=c)
                 try:
                     r = do_call(cache, kind, clock, c)
